@@ -157,13 +157,19 @@ def isLeaf : Arr → Bool
   | .struct _ _ _ | .list _ _ _ _ _ | .fixedSizeList _ _ _ _ _ | .map _ _ _ _ _ | .dictionary _ _ | .union _ _ _ => false
   | _ => true
 
-theorem touch_leaf (t : Target) {a : Arr} {i : Nat} (hl : isLeaf a = true) (hlt : i < lenOf a) : touchOK t a i = true := by
+/-- a leaf column: the row is below the length and the slot is null or designates bytes inside its buffer -/
+theorem touch_leaf (t : Target) {a : Arr} {i : Nat} (hl : isLeaf a = true) (hlt : i < lenOf a)
+    (hs : leafSlotOK a i = true) : touchOK t a i = true := by
   unfold touchOK
   have : ¬ i ≥ lenOf a := by omega
   simp only [this, if_false]
   split
   · rfl
-  · cases a <;> simp [isLeaf] at hl <;> rfl
+  · cases a <;> simp [isLeaf] at hl <;> exact hs
+
+/-- the leaves whose slots designate no byte range -/
+theorem leafSlotOK_of_leafOK {a : Arr} {i : Nat} (h : leafOK a i = true) : leafSlotOK a i = true := by
+  simp only [leafSlotOK, h, Bool.or_true]
 
 /-! #### containers -/
 
@@ -244,7 +250,7 @@ theorem touch_map {t : Target} {v : Option Bits} {offs : List Int} {mm : MapMeta
   · simp only [hk, hv, Bool.and_self]
 
 theorem touch_dict {t : Target} {ks vs : Arr} {i : Nat} (hlt : i < lenOf ks)
-    (h : ∀ j, decodeAt ks i = .ok (.int j) → 0 ≤ j ∧ j.toNat < lenOf vs) :
+    (h : ∀ j, decodeAt ks i = .ok (.int j) → 0 ≤ j ∧ j.toNat < lenOf vs ∧ leafSlotOK vs j.toNat = true) :
     touchOK t (.dictionary ks vs) i = true := by
   unfold touchOK
   have : ¬ i ≥ lenOf (.dictionary ks vs) := by simp only [lenOf]; omega
@@ -254,7 +260,7 @@ theorem touch_dict {t : Target} {ks vs : Arr} {i : Nat} (hlt : i < lenOf ks)
   · split
     · rename_i j hj
       have := h j hj
-      simp [this.1, this.2]
+      simp [this.1, this.2.1, this.2.2]
     · rfl
 
 theorem touch_union {t : Target} {types : List Int} {offs : Option (List Int)} {fs : ArrUFields} {i pos : Nat}
